@@ -34,6 +34,9 @@ pub struct PreCase {
     pub width: usize,
     pub nest: Nest,
     pub deco: u8,
+    /// `max_wrap_width(m)`: the available width is min(m, width - prefix)
+    #[serde(default)]
+    pub max_wrap: Option<usize>,
 }
 
 const ITAGS: &[&str] = &["", "", "", "em", "strong", "span", "code", "b"];
@@ -138,7 +141,8 @@ fn check_pre_inner(case: &PreCase, st: &mut Stats, strict: bool) -> Result<(), S
     if case.lines.is_empty() || case.lines.len() > 12 {
         return Err("harness: 1..=12 lines".into());
     }
-    let cfg = cfg_of(case.deco);
+    let mut cfg = cfg_of(case.deco);
+    cfg.max_wrap = case.max_wrap;
     let (html, src) = build(case);
     let w = case.width;
     let trivial = cfg.deco == Deco::Trivial;
@@ -148,7 +152,11 @@ fn check_pre_inner(case: &PreCase, st: &mut Stats, strict: bool) -> Result<(), S
         Nest::Quote => if trivial { ("", "") } else { ("> ", "> ") },
         Nest::Dd => ("  ", "  "),
     };
-    let avail = w.saturating_sub(p1.len());
+    let mut avail = w.saturating_sub(p1.len());
+    if let Some(m) = case.max_wrap {
+        avail = avail.min(m);
+        st.class("max_wrap_width");
+    }
     st.sample(|| json!({"html": short(&html, 300), "width": w, "cfg": cfg_brief(&cfg)}));
     let r = render_lines(&cfg, html.as_bytes(), w);
     if let Some(b) = r.bad() {
@@ -158,7 +166,7 @@ fn check_pre_inner(case: &PreCase, st: &mut Stats, strict: bool) -> Result<(), S
     let lines = match r {
         Rend::Ok(l) => l,
         _ => {
-            if case.nest == Nest::None && !(has_wide && w < 2) {
+            if case.nest == Nest::None && !(has_wide && avail < 2) {
                 return Err(format!("TooNarrow for a top-level <pre> without a character wider than the width (w={})\nhtml={:?}", w, html));
             }
             st.class("toonarrow");
@@ -306,7 +314,7 @@ fn check_pre_inner(case: &PreCase, st: &mut Stats, strict: bool) -> Result<(), S
 
 fn strict_regressions() -> Vec<PreCase> {
     let word = |len| PTok::Word { len, wide: false, tag: 0 };
-    let mk = |lines: Vec<Vec<PTok>>, width| PreCase { lines, br: vec![false], lead_nl: false, width, nest: Nest::None, deco: 0 };
+    let mk = |lines: Vec<Vec<PTok>>, width| PreCase { lines, br: vec![false], lead_nl: false, width, nest: Nest::None, deco: 0, max_wrap: None };
     vec![
         mk(vec![vec![word(15)]], 10),
         mk(vec![vec![word(25)], vec![word(3)], vec![word(12)]], 10),
@@ -343,8 +351,9 @@ pub fn pre_case() -> BoxedStrategy<PreCase> {
         1usize..=60,
         prop_oneof![4 => Just(Nest::None), 1 => Just(Nest::Li), 1 => Just(Nest::Quote), 1 => Just(Nest::Dd)],
         any::<u8>(),
+        prop::option::weighted(0.2, 1usize..=40),
     )
-        .prop_map(|(lines, br, lead_nl, width, nest, deco)| PreCase { lines, br, lead_nl, width, nest, deco })
+        .prop_map(|(lines, br, lead_nl, width, nest, deco, max_wrap)| PreCase { lines, br, lead_nl, width, nest, deco, max_wrap })
         .boxed()
 }
 
@@ -357,7 +366,7 @@ pub fn property() -> Property {
         hang_is_violation: false,
         subs: vec![
             EnumSub::new("tags_strict", false, |_| strict_regressions(), check_pre_strict).boxed(),
-            PropSub::new("model", 60_000, 600_000, pre_case, check_pre).boxed(),
+            PropSub::new("model", 60_000, 600_000, pre_case, check_pre).with_validity(|c| c.width >= 1 && !c.lines.is_empty() && c.max_wrap != Some(0)).boxed(),
         ],
     }
 }
